@@ -794,8 +794,10 @@ pub fn check_state(c: &C, st: &St, exp: &Exp, want: Want) {
 /// a recorded per-entry size that drifted from the total.
 pub fn drain_probe(c: &mut C, bound: usize) {
     vblock!([C02], {
+        // quick tier: probe the two oldest entries; `--cfg vp_full_probe` (thorough tier): all of them
+        let steps = if cfg!(vp_full_probe) { bound } else if bound < 2 { bound } else { 2 };
         let mut j = 0;
-        while j < bound {
+        while j < steps {
             let before = c.current_size();
             match c.remove_lru() {
                 Some((k, v)) => {
@@ -808,7 +810,9 @@ pub fn drain_probe(c: &mut C, bound: usize) {
             }
             j += 1;
         }
-        vcheck!(c.len() == 0 && c.current_size() == 0, "[C02 ] current_size is not 0 after removing every entry");
+        if steps == bound {
+            vcheck!(c.len() == 0 && c.current_size() == 0, "[C02 ] current_size is not 0 after removing every entry");
+        }
     });
 }
 
